@@ -31,12 +31,20 @@ type ClientDataSpec struct {
 	Origin    string
 	Extra     M    // additional members (crossOrigin, tokenBinding, unknown)
 	Shuffle   bool // member order
+	Absent    map[string]string // member name → "omit" (not written) or "null" (written as null: encoding/json leaves the member as it is)
 }
 
 func (s ClientDataSpec) JSON(r *RNG) []byte {
 	m := M{"type": s.Type, "challenge": s.Challenge, "origin": s.Origin}
 	for k, v := range s.Extra {
 		m[k] = v
+	}
+	for k, how := range s.Absent {
+		if how == "null" {
+			m[k] = nil
+		} else {
+			delete(m, k)
+		}
 	}
 	keys := make([]string, 0, len(m))
 	for k := range m {
